@@ -9,6 +9,7 @@
 //!   CFR_VERIF_SAMPLING_SEED u64   (absent: real thread_rng entropy)
 //!   CFR_VERIF_CORES         unknown | <n>   (absent: ask the OS)
 //!   CFR_VERIF_BUGGIFY       0 | 1
+//!   CFR_VERIF_STEP_BUDGET   u64: decision-node visits after which the run counts as hung
 //!   CFR_VERIF_REPORT        path of a JSON report written after main() returned
 use cfr_verif_seam as seam;
 use harness::sched::{Policy, SchedSpec};
@@ -53,6 +54,7 @@ fn main() {
     };
     let buggify = std::env::var("CFR_VERIF_BUGGIFY").map(|s| s != "0").unwrap_or(true);
     let report = std::env::var("CFR_VERIF_REPORT").ok();
+    let step_budget = env_u64("CFR_VERIF_STEP_BUDGET").unwrap_or(0);
     let out = Arc::new(Mutex::new(harness::sched::SchedOut::default()));
     let mut cfg = shuttle::Config::new();
     cfg.stack_size = 8 << 20; // clap and serde run inside the execution
@@ -64,7 +66,7 @@ fn main() {
     let stats: Arc<Mutex<Option<serde_json::Value>>> = Arc::new(Mutex::new(None));
     let stats2 = stats.clone();
     runner.run(move || {
-        seam::begin(seam::Begin { sampling_seed: sampling, cores, record_draws: false, record_visits: false, step_budget: 0 });
+        seam::begin(seam::Begin { sampling_seed: sampling, cores, record_draws: false, record_visits: false, step_budget });
         verif_rayon_shim::control::begin(verif_rayon_shim::control::Plan { fail_build: false, max_spawn: 4096, buggify });
         harness::real_main::verif::entry();
         let ctx = seam::end();
